@@ -1,3 +1,199 @@
 package hapsim
 
-func (r *Run) checkSlotsImpl() {}
+// C11 — no needless reloads.
+//
+// (a) profile quiet-renotify: spurious re-notifications and content-neutral
+//     updates; oracle NoReload (exec.go).
+// (b) profile quiet-capacity: dynamic-scaling on, endpoint churn only; a
+//     capacity model reads the slot count of each backend from the
+//     configuration SimHAProxy last loaded. A reconcile whose backends all fit
+//     in the loaded slots must not reload, and every loaded configuration must
+//     give each backend >= slots-min-free empty slots and a slot count that is a
+//     multiple of backend-server-slots-increment. The three values come from
+//     the generated global ConfigMap, never from the implementation.
+
+import (
+	"fmt"
+	"math/rand/v2"
+	"strconv"
+	"strings"
+
+	api "k8s.io/api/core/v1"
+)
+
+func (r *Run) globalInt(key string, def int) int {
+	cm, _ := r.kube.Truth(KConfigMap, globalConfigMapName).(*api.ConfigMap)
+	if cm == nil {
+		return def
+	}
+	if v, ok := cm.Data[key]; ok {
+		n, err := strconv.Atoi(v)
+		if err == nil {
+			return n
+		}
+	}
+	return def
+}
+
+func (r *Run) globalBool(key string, def bool) bool {
+	cm, _ := r.kube.Truth(KConfigMap, globalConfigMapName).(*api.ConfigMap)
+	if cm == nil {
+		return def
+	}
+	if v, ok := cm.Data[key]; ok {
+		return v == "true"
+	}
+	return def
+}
+
+func isUserBackend(name string) bool {
+	return !strings.HasPrefix(name, "_") && strings.Count(name, "_") >= 2
+}
+
+// checkSlotsImpl runs after every (re)load.
+func (r *Run) checkSlotsImpl() {
+	if !r.globalBool("dynamic-scaling", true) {
+		return
+	}
+	minFree := r.globalInt("slots-min-free", -1)
+	incr := r.globalInt("backend-server-slots-increment", -1)
+	if minFree < 0 || incr < 1 {
+		return // the profile always sets them; nothing to compare with otherwise
+	}
+	// the values that were in force when this configuration was rendered are the ones of the
+	// last reconcile; the capacity profile never changes them after start-up
+	for _, name := range r.ha.Loaded.BackendNames() {
+		if !isUserBackend(name) {
+			continue
+		}
+		be := r.ha.Loaded.Backends[name]
+		total, empty := 0, 0
+		for _, s := range be.Servers {
+			if s.Template {
+				total = -1
+				break
+			}
+			total++
+			if s.IsEmptySlot() {
+				empty++
+			}
+		}
+		if total < 0 {
+			continue
+		}
+		r.probe("slots_checked")
+		if empty < minFree {
+			r.violate(&Violation{Property: "C11", Oracle: "slots", Class: "min-free-slots",
+				Witness: fmt.Sprintf("loaded backend %s has %d empty slot(s) of %d, slots-min-free is %d", name, empty, total, minFree)})
+			return
+		}
+		if total%incr != 0 {
+			r.violate(&Violation{Property: "C11", Oracle: "slots", Class: "slots-increment",
+				Witness: fmt.Sprintf("loaded backend %s has %d slots, not a multiple of backend-server-slots-increment %d", name, total, incr)})
+			return
+		}
+	}
+}
+
+// neededSlots: number of servers the cluster state asks for a backend.
+func (r *Run) neededSlots(backend string) (int, bool) {
+	f := strings.Split(backend, "_")
+	if len(f) < 3 {
+		return 0, false
+	}
+	ns, svc := f[0], f[1]
+	ep, _ := r.kube.Truth(KEndpoints, ns+"/"+svc).(*api.Endpoints)
+	if ep == nil {
+		return 0, true
+	}
+	drain := r.globalBool("drain-support", false)
+	n := 0
+	for _, ss := range ep.Subsets {
+		n += len(ss.Addresses)
+		if drain {
+			n += len(ss.NotReadyAddresses)
+		}
+	}
+	return n, true
+}
+
+// checkCapacity runs after every reconcile of the capacity profile (after start-up).
+func (r *Run) checkCapacity() {
+	if r.ha.Loaded == nil || r.startupReloads == 0 {
+		return
+	}
+	reloaded := r.cur.reloadedSync || r.cur.reloadEnq
+	if !reloaded || r.reloadPendingBefore {
+		// with a reload already pending the running HAProxy lags the files; commands for the
+		// slots of the newer files fail and a reload is the documented answer
+		return
+	}
+	// a reload was requested: it is justified only if some backend does not fit
+	for _, name := range r.capLoaded.BackendNames() {
+		if !isUserBackend(name) {
+			continue
+		}
+		slots := 0
+		for _, s := range r.capLoaded.Backends[name].Servers {
+			if !s.Template {
+				slots++
+			}
+		}
+		need, ok := r.neededSlots(name)
+		if ok && need > slots {
+			r.probe("capacity_reload_justified")
+			return
+		}
+	}
+	r.violate(&Violation{Property: "C11", Oracle: "capacity", Class: "reload-within-capacity",
+		Witness: fmt.Sprintf("reconcile #%d reloaded although only endpoints changed and every backend fits in the slots of the loaded configuration (%s)", r.reconciles, r.capSummary())})
+}
+
+func (r *Run) capSummary() string {
+	var out []string
+	for _, name := range r.capLoaded.BackendNames() {
+		if !isUserBackend(name) {
+			continue
+		}
+		need, _ := r.neededSlots(name)
+		out = append(out, fmt.Sprintf("%s: %d slots, %d needed", name, len(r.capLoaded.Backends[name].Servers), need))
+	}
+	return strings.Join(out, "; ")
+}
+
+func init() {
+	capGlobals := func(r *rand.Rand) map[string]string {
+		return map[string]string{
+			"dynamic-scaling":                "true",
+			"slots-min-free":                 fmt.Sprint([]int{0, 1, 2, 3, 6}[r.IntN(5)]),
+			"backend-server-slots-increment": fmt.Sprint([]int{1, 2, 3, 4}[r.IntN(4)]),
+			"backend-server-naming":          []string{"sequence", "ip", "pod"}[r.IntN(3)],
+			"drain-support":                  []string{"true", "false"}[r.IntN(2)],
+		}
+	}
+	register(&Profile{Name: "quiet-capacity", Prop: "C11", Weight: 2,
+		Oracles: OracleSet{Property: "C11", Capacity: true},
+		Build: func(seed uint64, tier string) *RunConfig {
+			r := cfgRng(seed)
+			mn, mx := tierOps(tier, 10, 30)
+			ctl := sampleCtl(r)
+			rc := &RunConfig{Property: "C11", Profile: "quiet-capacity", Seed: seed, Ctl: ctl, MapOrder: r.IntN(2) == 0, Lagfree: true}
+			w := map[string]int{"ep_scale": 20, "ep_ready": 8, "ep_replace": 8, "renotify": 3, "advance": 4}
+			keys := []string{"affinity", "session-cookie-name", "session-cookie-strategy", "balance-algorithm", "maxconn-server", "timeout-server", "initial-weight"}
+			rc.World, rc.Ops = GenerateRun(seed, GenOptions{Sparse: r.IntN(3) == 0, IngressKeys: keys, ServiceKeys: []string{"maxconn-server"},
+				GlobalKeys: []string{"timeout-client"}, InitialGlobal: capGlobals(r), MinOps: mn, MaxOps: mx, QuiesceEvery: 4, KeysPerRun: 4, W: w, NoForeignClass: true})
+			return rc
+		}})
+	register(&Profile{Name: "quiet-renotify", Prop: "C11", Weight: 1,
+		Oracles: OracleSet{Property: "C11", NoReload: true},
+		Build: func(seed uint64, tier string) *RunConfig {
+			r := cfgRng(seed)
+			mn, mx := tierOps(tier, 8, 30)
+			ctl := sampleCtl(r)
+			rc := &RunConfig{Property: "C11", Profile: "quiet-renotify", Seed: seed, Ctl: ctl, MapOrder: r.IntN(2) == 0, Lagfree: r.IntN(2) == 0, MidSched: r.IntN(2) == 0}
+			w := map[string]int{"renotify": 20, "advance": 4, "neutral_update": 12}
+			rc.World, rc.Ops = GenerateRun(seed, GenOptions{Sparse: r.IntN(3) == 0, ExcludeIngressKeys: alwaysExcludedIngressKeys, MinOps: mn, MaxOps: mx,
+				QuiesceEvery: 4, KeysPerRun: pickInt(r, 4, 8), W: w})
+			return rc
+		}})
+}
